@@ -484,3 +484,71 @@ def nested_association_failure(a: int, b: int, c: int) -> bool:
     return ok
 
 
+UNREAD = (1, 2, 31, 32, 33, 34, 48, 200)
+
+
+@cond(bounds='leaving a requested association with UNREAD indications pending (public API over the REAL provider, scripted peer): '
+             'the peer answers one C-ECHO-RQ with n responses at once, n from {1, 2, 31, 32, 33, 34, 48, 200} by symbolic '
+             'selector; the application takes the first and leaves the with-block normally or through an error (symbolic): '
+             'the peer still receives the A-RELEASE-RQ / exactly one A-ABORT (the provider thread must not be stuck behind '
+             'indications nobody reads), the user\'s own error comes out, nothing blocks', timeout=300)
+def leave_with_unread_indications(sel: int, raises: bool) -> bool:
+    """
+    pre: 0 <= sel <= 7
+    post: _
+    """
+    from vt import sim
+    from vt.harness import live as L
+    from pynetdicom2 import dimsemessages as dm
+    n = UNREAD[pick(sel, 0, 7)]
+    rz = bool(pick(int(raises), 0, 1))
+    with sim._no_tracing():
+        L.install(sim.SimClock(1000))
+        ae = _client_ae()
+
+        def react(new):
+            out = []
+            for raw in new:
+                if raw[0] == 1:
+                    out.append(_ac_for(raw))
+                elif raw[0] == 4:
+                    out.append(b''.join(_echo_rsp_wire(1) for _ in range(n)))
+                elif raw[0] == 5:
+                    out.append(pdu.AReleaseRpPDU().encode())
+                elif raw[0] == 7:
+                    out.append(b'')
+            return out
+        so = L.StepSocket()
+        L.LiveDulModule.queue = [(so, L.PeerBot(react))]
+        outcome = None
+        try:
+            with ae.request_association({'aet': 'REMOTE', 'address': 'a', 'port': 104}) as asce:
+                rq = dm.CEchoRQMessage()
+                rq.message_id = 1
+                rq.sop_class_uid = VERIF_SOP
+                asce.send(rq, 1)
+                asce.receive()
+                if rz:
+                    raise ValueError('application error')
+            outcome = 'left normally'
+        except ValueError:
+            outcome = 'application error'
+        except api.Hang as h:
+            outcome = 'blocked: %s' % (h,)
+        except exceptions.NetDICOMError as e:
+            outcome = 'library error %s' % type(e).__name__
+        prov = L.LiveDulModule.created[-1]
+        kinds = [w[0] for w in so.sent]
+        ok = outcome == ('application error' if rz else 'left normally') and prov._vt_pump.err is None
+        ok = ok and kinds == ([1, 4, 7] if rz else [1, 4, 5])
+        leave_with_unread_indications.last = (outcome, kinds, prov._vt_pump.err)
+    deep(ok and n == 33 and rz)
+    return ok
+
+
+def explain(cname, args, famv):
+    if cname == 'leave_with_unread_indications':
+        leave_with_unread_indications(**args)
+        return 'n=%d unread responses: outcome=%r, PDU types written to the peer=%r (expected 1, 4 then 5 = release / 7 = abort), provider loop error=%r' % (
+            (UNREAD[args['sel']],) + leave_with_unread_indications.last)
+    return ''
